@@ -503,8 +503,12 @@ class BasicNextPatcherVisitor(BasicConstructVisitor):
         self.for_stack.append(for_statement.var)
 
     def visit_next_statement(self, next_statement):
-        if self.for_stack and len(next_statement.var_list.exp_list) == 0:
-            next_statement.var_list.exp_list.append(self.for_stack.pop())
+        exp_list = next_statement.var_list.exp_list
+        if exp_list:
+            # a NEXT that names its variables closes that many open loops
+            del self.for_stack[max(0, len(self.for_stack) - len(exp_list)) :]
+        elif self.for_stack:
+            exp_list.append(self.for_stack.pop())
 
 
 class BasicFunctionalExpressionPatcherVisitor(BasicConstructVisitor):
